@@ -342,4 +342,5 @@ def run(ctx):
     _run_rules(ctx)
     from .. import boundaries
     boundaries.check(ctx, 'C19.RB', 'C19')
+    boundaries.check_guards(ctx, 'C19.RG', 'C19')
     boundaries.check_calls(ctx, 'C19.RC', 'C19')
